@@ -7,7 +7,7 @@ from flosim.gen import cfg_with
 class C09(FloCheck):
     pid = "C09"
     design_ref = "§6 C09"
-    cfg = cfg_with(nframes=(2, 6), p_child=0.7, naux=(1, 2), p_aux=0.45, p_caux=0.1, p_done=0.7, p_auxdone=0.35, p_done_named=0.15, nslaves=(0, 1), p_go=0.7)
+    cfg = cfg_with(nframes=(2, 6), p_child=0.7, naux=(1, 2), p_aux=0.45, p_caux=0.1, p_done=0.7, p_auxdone=0.35, p_done_named=0.15, nslaves=(0, 1), p_go=0.7, p_auxdone_named=0.5)
     rule = ("generated programs in which frames at several levels carry plain auxiliaries (shared originals), with 'done' verbs "
             "(own and named) and done-conditions (any / all / named) on watcher transitions; direct invariants from the recorder "
             "trace: the auxiliary's first-frame enter follows its main frame's enter actions, every auxiliary frame is exited "
